@@ -143,8 +143,12 @@ def gen_bind(tp):
         else:
             keys[k] = v
     durs = []
+    # (now and then durations off the binary grid whose sums land just below
+    # a round total: within the tolerance of a Pdur)
+    pool = [0.25, 0.5, 0.5, 1, 0.125, 1.5] if tp.draw(8) \
+        else [0.3333, 0.3333, 0.1666, 0.4999, 0.9995]
     for _ in range(n):
-        d = tp.choice([0.25, 0.5, 0.5, 1, 0.125, 1.5])
+        d = tp.choice(pool)
         if tp.draw(6) == 0:
             d = ['rest', d]
         durs.append(d)
@@ -180,6 +184,11 @@ def gen_pat(tp, depth=0, allow_mono=True):
     if depth < 2 and k == 2:
         return ['delta', tp.choice([0.25, 0.5, 1]),
                 gen_pat(tp, depth + 1, allow_mono)]
+    if depth < 2 and k == 4:
+        # one after the other: the total duration of each part is where the
+        # next one starts
+        return ['seq', [gen_pat(tp, depth + 1, False)
+                        for _ in range(2 + tp.draw(2))]]
     if depth < 2 and k == 3:
         a = gen_bind(tp)
         b = gen_bind(tp)
@@ -312,6 +321,14 @@ def shrink_candidates(case):
 def sub_pats(p):
     import copy
     if p[0] == 'par':
+        for x in p[1]:
+            yield x
+        for i in range(len(p[1])):
+            if len(p[1]) > 1:
+                q = copy.deepcopy(p)
+                del q[1][i]
+                yield q
+    elif p[0] == 'seq':
         for x in p[1]:
             yield x
         for i in range(len(p[1])):
@@ -494,6 +511,14 @@ def expand(p, inherited=None):
             tot = max(tot, d)
         out.sort(key=lambda x: x[0])
         return out, tot
+    if k == 'seq':
+        out = []
+        tot = 0.0
+        for sub in p[1]:
+            evs, d = expand(sub)
+            out += [[tot + t, e] for t, e in evs]
+            tot += d
+        return out, tot
     raise ValueError(p)
 
 
@@ -533,6 +558,8 @@ def build_pattern(p):
         return Pdur(p[1], build_pattern(p[2]))
     if k == 'par':
         return Ppar(*[build_pattern(x) for x in p[1]])
+    if k == 'seq':
+        return Pseq([build_pattern(x) for x in p[1]])
     raise ValueError(p)
 
 
@@ -847,9 +874,19 @@ def wakes(p):
         return out | {tot}
     if k == 'delta':
         return {0.0} | {p[1] + t for t in wakes(p[2])} | {tot}
+    if k == 'seq':
+        out, at = set(), 0.0
+        for sub in p[1]:
+            d = expand(sub)[1]
+            out |= {at + t for t in wakes(sub) if t < d or sub is p[1][-1]}
+            at += d
+        return out | {tot}
     if k == 'dur':
-        return {t for t in wakes(p[2]) if t < tot} | {t for t, _ in evs} \
-            | {tot}
+        # the event starting at t is reached only if the one before it did
+        # not already end within the tolerance of the limit
+        return {t for t in wakes(p[2]) if t < tot and (
+            t == 0 or math.ceil(round(t / 0.001, 9)) * 0.001 < p[1])} \
+            | {t for t, _ in evs} | {tot}
     return {t for t, _ in evs} | {tot}
 
 
